@@ -171,6 +171,52 @@ m1 1001 1.0
 
 m1 1001 1.0
 ''', []),
+    'bc_conflicting_kinds': ('''coincident surfaces with different flags: ValueError after a complete file
+1 1 -1.0 -1 2 imp:n=1
+2 0 1 : -3 imp:n=0
+
+1 so 2
+*2 px 0
++3 px 0
+
+m1 1001 1.0
+''', []),
+    'duplicate_tilted_tori': ('''two equal tori under the same rotation (SurfaceT4.__eq__ with transforms)
+1 1 -1.0 -1 : -2 imp:n=1
+2 0 1 2 -3 imp:n=1
+3 0 3 imp:n=0
+
+1 1 tz 0 0 0 3 1 1
+2 1 tz 0 0 0 3 1 1
+3 so 20
+
+tr1 0 0 0 1 0 0 0 0.8660254037844387 0.5 0 -0.5 0.8660254037844387
+m1 1001 1.0
+''', []),
+    'union_of_volumes_emptied_by_dedup': ('''every operand of a UNION is removed (ops = None)
+1 1 -1.0 (-1 2) : (-2 1) imp:n=1
+2 0 -3 imp:n=1
+3 0 3 imp:n=0
+
+1 so 2
+2 so 2
+3 so 5
+
+m1 1001 1.0
+''', []),
+    'atom_density_compositions': ('''positive densities: POINT_WISE with atom fractions, and with mass fractions (empty block)
+1 1 0.05 -1 imp:n=1
+2 2 4.8e-2 1 -2 imp:n=1
+3 1 0.05 2 -3 imp:n=1
+4 0 3 imp:n=0
+
+1 so 1
+2 so 2
+3 so 3
+
+m1 8016 1 1001 2
+m2 26000 -0.7 6012 -0.3
+''', []),
     'bc_on_merged_duplicate': ('''flag carried by a surface merged into its duplicate
 1 1 -1.0 -1 2 imp:n=1
 2 0 1 : -3 imp:n=0
@@ -269,6 +315,29 @@ def make_case(conv, cap, args, verdict):
 
 
 def run(res, tier, seed, proofs_ok):
+    '''Sweep and ties; the corpus decks run under a line-coverage
+    tracer restricted to the anchored functions (every reachable line must be
+    executed).'''
+    import c08_cov
+    cov = c08_cov.LineCov(c08_cov.anchored_functions())
+    _run(res, tier, seed, proofs_ok, cov)
+    total, missing = cov.missing(c08_cov.UNREACHABLE)
+    res.extra['anchored_lines'] = total
+    res.obligation('coverage: the corpus decks (WITNESSES) alone '
+                   f'execute every reachable line of the {len(cov.codes)} '
+                   f'anchored code objects ({total} lines)', not missing,
+                   f'never executed: {missing[:6]}')
+    if missing:
+        res.violation('harness-error',
+                      'generated inputs no longer reach these lines of the '
+                      'anchored code (strengthen the generators): '
+                      f'{missing[:8]}',
+                      {'theorem_or_correspondence': 'coverage',
+                       'input': {'lines': [list(m) for m in missing[:20]]}},
+                      found_input=False)
+
+
+def _run(res, tier, seed, proofs_ok, cov):
     rng = random.Random(seed)
     for text, ints in cap_mod.PACK_SAMPLES.items():
         if cap_mod.pack(text) != ints:
@@ -288,7 +357,8 @@ def run(res, tier, seed, proofs_ok):
     # ---- 1. witnesses of the open findings and corpus of the repaired ones ----
     cases, meta = [], []
     for cls, (deck_text, args) in WITNESSES.items():
-        conv, cap = cap_mod.convert(deck_text, args)
+        with cov:
+            conv, cap = cap_mod.convert(deck_text, args)
         verdict = sweep_one(res, deck_text, args, conv, cap,
                             f'witness:{cls}')
         res.count(f'witness:{cls}:' + ('still-fails' if verdict is False
